@@ -31,7 +31,8 @@ MANIFEST = {
     'technique': ('typestate abstract interpretation over the servicer CFGs (pairs of '
                   'loaded/stored Trial.State, Study.State guard facts), no-return summary '
                   'of handle_exception, isinstance-table totality, alias/provenance '
-                  'analysis of the datastores'),
+                  'analysis of the datastores'
+                  '; shared rules C04.R1/R4 (lock regions, lock-key kinds), C05.R1/R2 (SQL transaction shape), C07.R4/R8 (exact delete/filters); handler bodies analysed through conservative try->handler CFG edges'),
     'level_text': (
         'Static: on every CFG path of every RPC method, each trial written back to the '
         'datastore goes through a legal state transition, completed trials have no '
